@@ -336,6 +336,20 @@ pub fn run_type<T: Reg>(cx: &mut Cx, name: &str) {
 					inputs.push((v, "compact-grammar", None));
 				}
 			}
+			if desc == "TStr" && matches!(cx.mode, Mode::C03 | Mode::C18 | Mode::C14 | Mode::C08) {
+				// multi-byte characters straddling every small power-of-two offset (a validator
+				// working in blocks must see them whole)
+				for block in [16usize, 32, 64, 128, 256, 4096, 16384] {
+					for (ch, back) in [("é", 1usize), ("€", 1), ("€", 2), ("😀", 1), ("😀", 2), ("😀", 3)] {
+						for k in [1usize, 2] {
+							let mut st = "a".repeat(block * k - back);
+							st.push_str(ch);
+							st.push_str("zz");
+							inputs.push((st.encode(), "valid", None));
+						}
+					}
+				}
+			}
 			for (inp, fam, _) in inputs {
 				if inp.len() > 70000 && fam != "valid" && !cx.rng.chance(1, 4) {
 					continue;
